@@ -64,6 +64,28 @@ CLAIMED = {
              "with field-wise equality to the description and an independent RFC reference encoder as oracles.",
         technique="Coq proof (element round-trip lemmas composed by induction over sections) + model/implementation correspondence",
         ref="DESIGN.md section 6, C02"),
+    "C03": dict(
+        text="Kernel-checked theorem: for EVERY well-formed packet (no bound on the message size) both serialisations succeed, "
+             "Packet::parse of the compressed bytes equals Packet::parse of the plain bytes (and is the original packet), and the "
+             "compressed form is never longer. Proved through an invariant on the suffix table (every entry is a non-empty suffix at "
+             "an offset <= 16383 where the bytes written so far decode to it), shown preserved by the name writer, by every RDATA "
+             "layout, by records (with RDLENGTH = bytes actually written), questions and sections; the pointer bytes are shown to "
+             "carry the offset exactly when it fits 14 bits (sweep), which is what the pinned tree violated. Tied to /repo by "
+             "packets with heavy suffix sharing, message sizes straddling 16384 and pointer chains, run compressed and plain on "
+             "model and implementation.",
+        technique="Coq proof (table invariant by induction over labels / layouts / sections; 14-bit pointer sweep) + model/implementation correspondence",
+        ref="DESIGN.md section 6, C03"),
+    "C07": dict(
+        text="Kernel-checked theorems: under the table invariant the name writer emits a pointer only to a recorded entry, which is "
+             "strictly backwards, <= 16383, message-relative and decodes (RFC 1035 4.1.4) to the intended remaining labels, and the "
+             "emitted name expands to the intended name; the invariant holds at every stage of Packet::write_compressed_to for every "
+             "well-formed packet; SRV, NAPTR, KX, RRSIG, NSEC, IPSECKEY, SVCB and HTTPS write their RDATA in full and leave the table "
+             "untouched; a name written at an offset <= 16383 is written as a two-byte pointer at any later compressing position "
+             "(the table only grows), and every name field of the RFC 1035 types is a compressing position. Tied to /repo by an "
+             "independent python walker that locates every pointer through each type's schema, writers at non-zero origins and "
+             "messages crossing 16 KiB.",
+        technique="Coq proof (table invariant; per-type layout table) + model/implementation correspondence with an independent pointer walker",
+        ref="DESIGN.md section 6, C07"),
     "C05": dict(
         text="Kernel-checked theorems: if Packet::parse accepts d, an independent envelope reader (names, fixed 10-byte RR header, "
              "RDLENGTH skip) succeeds on d and the questions / records correspond one-to-one and in order to its entries (owner, "
@@ -175,7 +197,7 @@ def main():
             "guard": "cfg(simple_dns_verif)",
             "enable": "rustflags --cfg simple_dns_verif, set in /verif/harness/.cargo/config.toml; the harness path-depends on /repo/simple-dns and /repo/simple-mdns so every check rebuilds from /repo's working tree",
             "baseline_off_cmd": "cd /repo && cargo nextest run --workspace --no-fail-fast --offline",
-            "source_commits": ["3c6170d"],
+            "source_commits": ["3c6170d", "559c3ac"],
             "add_only": True,
         },
         "engines": [
